@@ -73,7 +73,8 @@ func (r *RoundRobin) ServeHTTP(w http.ResponseWriter, req *http.Request) {
 		}
 
 		if present {
-			newReq.URL = cookieURL
+			// hand out a copy: downstream handlers may edit the request URL
+			newReq.URL = utils.CopyURL(cookieURL)
 			stuck = true
 		}
 	}
